@@ -32,6 +32,7 @@ structure OSt where
 structure St where
   m : MSt := {}
   o : OSt := {}
+  sys : Bool := false
 
 def dupBy (f : α → β) [BEq β] : List α → Bool
   | [] => false
@@ -131,11 +132,115 @@ def oracle (o : OSt) (w : List String) (res : String) (snap : ISnap) : OSt × Op
       | none => if sidDup then some "two live sessions share a local session id" else none
   (o, verdict)
 
+
+/-! ### system-level wire tap (`sys` cases): every datagram of a run between two real nodes
+
+Specification (property text): on every session each outgoing message that is not a retransmission
+carries a counter strictly greater than all earlier ones of that session, and a retransmission is
+bit-for-bit identical to the original — so no (key, counter, source) nonce ever protects two
+different messages. On the wire a *stream* is (sending node, receiving node, session id in the
+header, source / destination node id of unsecured headers); within a stream, in sending order, a
+datagram either repeats a counter seen before — then all its bytes must equal the first one's — or
+carries a new one, which must not lie below the earlier ones (up to the reordering between the two
+send paths of the transport: at most a few positions). Session-less replies of the transport (Busy /
+SessionNotFound status reports, built outside any session with a constant counter) carry no nonce
+and are left out. -/
+
+def hexVal (c : Char) : Nat :=
+  if c.isDigit then c.toNat - '0'.toNat else if 'a' ≤ c && c ≤ 'f' then c.toNat - 'a'.toNat + 10 else 0
+
+def unhex (s : String) : List Nat :=
+  let rec go : List Char → List Nat
+    | a :: b :: rest => (hexVal a * 16 + hexVal b) :: go rest
+    | _ => []
+  go s.toList
+
+def le (bs : List Nat) (off n : Nat) : Nat :=
+  (List.range n).foldl (fun acc i => acc + (bs.getD (off + i) 0) * 256 ^ i) 0
+
+structure WDg where
+  idx : Nat
+  sender : Nat
+  hex : String
+  sess : Nat
+  ctr : Nat
+  /-- (source node id, destination node id) as far as present -/
+  ids : Nat × Nat
+  /-- unsecured status report with protocol code 4 (Busy) or 5 (SessionNotFound) -/
+  sessionless : Bool
+
+def parseWDg (idx : Nat) (tok : String) : Option WDg :=
+  match tok.splitOn ":" with
+  | [_, f, _, h] =>
+    let b := unhex h
+    if b.length < 8 then none else
+    let flags := b.getD 0 0
+    let sess := le b 1 2
+    let ctr := le b 4 4
+    let hasSrc := flags / 4 % 2 == 1
+    let dsiz := flags % 4
+    let src := if hasSrc then le b 8 8 + 1 else 0
+    let o1 := if hasSrc then 16 else 8
+    let dst := if dsiz == 1 then le b o1 8 + 1 else if dsiz == 2 then le b o1 2 + 1 else 0
+    let o := o1 + (if dsiz == 1 then 8 else if dsiz == 2 then 2 else 0)
+    let unsec := sess == 0 && (b.getD 3 0) % 4 == 0
+    let xf := b.getD o 0
+    let opc := b.getD (o + 1) 0
+    let proto := le b (o + 4) 2
+    let p := o + 6 + (if xf / 16 % 2 == 1 then 2 else 0) + (if xf / 2 % 2 == 1 then 4 else 0)
+    let sl := unsec && proto == 0 && opc == 0x40 && (le b (p + 6) 2 == 4 || le b (p + 6) 2 == 5)
+    some { idx := idx, sender := f.toNat?.getD 0, hex := h, sess := sess, ctr := ctr, ids := (src, dst), sessionless := sl }
+  | _ => none
+
+structure WStream where
+  key : Nat × Nat × Nat × Nat
+  /-- (counter, datagram) first seen, newest first -/
+  seen : List (Nat × String)
+  max : Nat
+
+def wireVerdict (res : String) : Option String :=
+  match words res with
+  | [_, body] =>
+    let dgs := (body.splitOn ",").zipIdx.filterMap (fun (t, i) => parseWDg i t)
+    let step (acc : List WStream × Option String) (d : WDg) : List WStream × Option String :=
+      match acc.2 with
+      | some _ => acc
+      | none =>
+        if d.sessionless then acc else
+        let key := (d.sender, d.sess, d.ids.1, d.ids.2)
+        match acc.1.find? (fun s => s.key == key) with
+        | none => ({ key := key, seen := [(d.ctr, d.hex)], max := d.ctr } :: acc.1, none)
+        | some s =>
+          match s.seen.find? (fun p => p.1 == d.ctr) with
+          | some (_, h0) =>
+            if h0 == d.hex then acc
+            else (acc.1, some s!"datagram {d.idx} (node {d.sender}, session {d.sess}) carries counter {d.ctr} again with different bytes: the nonce (key, counter, source) protects two different messages / the retransmission is not identical to the original")
+          | none =>
+            -- counters are taken in order, but a stand-alone acknowledgement for a duplicate goes to the
+            -- wire directly while an older message still waits in the transmit slot: a counter may
+            -- appear a few positions late. Anything further back is a counter that went backwards.
+            if d.ctr + 16 ≤ s.max then
+              (acc.1, some s!"datagram {d.idx} (node {d.sender}, session {d.sess}): new counter {d.ctr} lies far below earlier ones (max {s.max}): the send counter went backwards")
+            else
+              (acc.1.map (fun t => if t.key == key then { t with seen := (d.ctr, d.hex) :: t.seen, max := max t.max d.ctr } else t), none)
+    (dgs.foldl step ([], none)).2
+  | ["0"] => none
+  | _ => some "BAD tap line"
+
 def step (st : St) (line : String) : St × String :=
   let (op, out) := splitArrow line
   match words op with
-  | "case" :: _ :: kind => ({ m := newCase kind }, "case")
+  | "case" :: _ :: kind => ({ m := newCase kind, sys := kind.head? = some "sys" }, "case")
   | w =>
+    if st.sys then
+      if out = "panic" then (st, "ORA a node panicked") else
+      match w.getD 0 "" with
+      | "tap" =>
+        match wireVerdict out with
+        | some why => (st, if why.startsWith "BAD" then why else s!"ORA {why}")
+        | none => (st, "ok")
+      | _ => (st, if out = "hang" then "ORA the script did not finish (hang)" else "ok")
+    else
     let (res, snapS) := splitHash out
     let (m', dis) := modelStep st.m op out
     let (o', ora) := if st.m.isMrp then (st.o, none) else oracle st.o w res (parseSnap snapS)
